@@ -44,6 +44,18 @@ func (s Symbol) group() string { return s.Kind + "|" + s.Pkg + "|" + s.Owner }
 func (s Symbol) key() string   { return s.group() + "|" + s.Name }
 
 func typeStr(t types.Type) string {
+	// parameter and result names are not part of what a declaration is: func() bool and
+	// func() (ok bool) are the same signature
+	if sg, ok := t.(*types.Signature); ok && sg.TypeParams() == nil && sg.RecvTypeParams() == nil {
+		strip := func(tu *types.Tuple) *types.Tuple {
+			var vs []*types.Var
+			for i := 0; i < tu.Len(); i++ {
+				vs = append(vs, types.NewVar(tu.At(i).Pos(), tu.At(i).Pkg(), "", tu.At(i).Type()))
+			}
+			return types.NewTuple(vs...)
+		}
+		t = types.NewSignatureType(nil, nil, nil, strip(sg.Params()), strip(sg.Results()), sg.Variadic())
+	}
 	return types.TypeString(t, func(p *types.Package) string { return p.Path() })
 }
 
